@@ -209,17 +209,34 @@ def run(rep, repo, tier):
             if reached(pe, ctx):
                 return e
         return None
-    def val_of(dest, v):
-        return [v] if (pf.by_dest.get(dest) and pf.by_dest[dest].nargs is not None) else v
+    def is_list_dest(dest):
+        return bool(pf.by_dest.get(dest) and pf.by_dest[dest].nargs is not None)
+    def val_of(dest, v, extras=()):
+        return [v] + list(extras) if is_list_dest(dest) else v
     pairs_ = [(rows[a][0], rows[b][0]) for a, b in ((0, 1), (1, 2), (2, 4), (6, 8), (0, 8)) if a < len(rows) and b < len(rows)]
+    # every criterion that takes extras is also paired with a neighbour: a position is shared whatever follows it
+    dests_ = [d for d, _ in rows]
+    for k_, d in enumerate(dests_):
+        if is_list_dest(d) and len(dests_) > 1:
+            other = dests_[(k_ + 1) % len(dests_)]
+            if (d, other) not in pairs_ and (other, d) not in pairs_:
+                pairs_.append((d, other))
     r3_bad, r3_n = [], 0
     try:
         for d1, d2 in pairs_:
-            for p1, p2, want_refused in ((1, 1, True), (N, N, True), (3, 3, True), (1, 2, False), (2, 1, False), (1, N, False), (N, 1, False), (4, 7, False)):
-                r3_n += 1
-                e = refused({d1: val_of(d1, p1), d2: val_of(d2, p2)})
-                if (e is not None) != want_refused:
-                    r3_bad.append((d1, p1, d2, p2, e))
+            shapes_ = [((), ())]
+            if is_list_dest(d1):
+                shapes_.append(((3,), ()))
+            if is_list_dest(d2):
+                shapes_.append(((), (3,)))
+            if is_list_dest(d1) and is_list_dest(d2):
+                shapes_.append(((3,), (5,)))
+            for x1, x2 in shapes_:
+                for p1, p2, want_refused in ((1, 1, True), (N, N, True), (3, 3, True), (1, 2, False), (2, 1, False), (1, N, False), (N, 1, False), (4, 7, False)):
+                    r3_n += 1
+                    e = refused({d1: val_of(d1, p1, x1), d2: val_of(d2, p2, x2)})
+                    if (e is not None) != want_refused:
+                        r3_bad.append((d1, p1, d2, p2, e))
         if r3_bad:
             d1, p1, d2, p2, e = r3_bad[0]
             if e is None:
@@ -377,6 +394,19 @@ def check_helper(rep, repo, helper, N, r1='C16.R1', r3='C16.R3', r6='C16.R6'):
             else:
                 rep.fail(r1, where, 'compaction visits every position 1..%d' % N, got='positions are read back over range(1, %s): a criterion whose position lies beyond that is dropped' % show(hi)[:80],
                          want='range(1, len(opts) + 1)', construct='compaction range %s' % show(hi)[:60])
+                return
+    if X is None and comp[0] == 'comp' and len(comp[1]) == 1:
+        # a sparse table keyed by slot index (position - 1), read back over range(HI) keeping the keys present
+        b, g = comp[1][0]
+        dom = b[3]
+        D = comp[2][1] if (comp[2][0] == 'idx' and comp[2][2] == b) else None
+        if D is not None and D[0] == 'accum' and D[1] == ('dict', ()) and g == CMP('In', b, D) and dom[0] == 'call' and dom[1] == S('range') and len(dom[2]) == 1:
+            hi = dom[2][0]
+            if hi in (C(N), CALL(S('len'), [S(helper.params[-1])])):
+                X, sent, dict_mode = D, NONE, True
+            else:
+                rep.fail(r1, where, 'compaction visits every slot 0..%d' % (N - 1), got='slots are read back over range(%s): a criterion whose position lies beyond that is dropped' % show(hi)[:80],
+                         want='range(len(opts))', construct='compaction range %s' % show(hi)[:60])
                 return
     if X is None:
         # (an unrecognised way of compacting is not by itself a wrong one)
